@@ -457,6 +457,7 @@ namespace cgi {
 				async_send_respnse(mfunc_to_event_handler(&fastcgi::on_params_response_sent,
 								self(),
 								h));
+				return;
 			}
 			else if(header_.type!=fcgi_begin_request) {
 				async_read_headers(h);
